@@ -324,6 +324,9 @@ func (ex *Exec) mergePair2(a, b *State) (*State, string) {
 		}
 		m, ok := ex.mergeHeapVal(cA, va, vb)
 		if !ok {
+			if debugMerge {
+				fmt.Fprintf(os.Stderr, "   heap obj %d: %s  VS  %s\n", obj, fmtValue(va), fmtValue(vb))
+			}
 			return nil, "r9"
 		}
 		nh[obj] = m
